@@ -9,10 +9,13 @@ from toolz import merge_sorted, unique
 from dask.core import flatten
 from dask.dataframe import methods
 from dask.dataframe.dask_expr._expr import (
+    AddPrefix,
+    AddPrefixSeries,
     AsType,
     Blockwise,
     Expr,
     Projection,
+    RenameFrame,
     ToFrame,
     are_co_aligned,
     determine_column_projection,
@@ -261,6 +264,7 @@ class Concat(Expr):
             ):
                 return
 
+            same_index = self.axis == 1 and _have_same_index(self._frames)
             frames = [
                 (
                     frame[cols]
@@ -271,7 +275,10 @@ class Concat(Expr):
                 for frame, cols in zip(self._frames, columns_frame)
                 # stacking rows (axis=0): a frame without any of the selected
                 # columns still contributes its rows (all-NaN under join="outer")
-                if len(cols) > 0 or (self.axis == 0 and frame.ndim == 2)
+                # axis=1: its index still takes part in the alignment, unless
+                # all inputs have the same index anyway
+                if len(cols) > 0
+                or (frame.ndim == 2 and (self.axis == 0 or not same_index))
             ]
             result = type(self)(
                 self.join,
@@ -306,6 +313,24 @@ class Concat(Expr):
                     return ToFrame(result)
 
             return type(parent)(result, *parent.operands[1:])
+
+
+def _have_same_index(frames):
+    """Do all frames derive from the same parent by selecting, renaming or
+    casting columns only, i.e. do they have the same rows and the same index?"""
+    from dask.dataframe.dask_expr.io.io import IO
+
+    roots = []
+    for frame in frames:
+        while isinstance(
+            frame, (Projection, RenameFrame, AddPrefix, AddPrefixSeries, AsType, ToFrame)
+        ):
+            frame = frame.frame
+        roots.append(frame)
+    if len({root._name for root in roots}) == 1:
+        return True
+    # the same IO expression with different column projections
+    return all(isinstance(root, IO) for root in roots) and are_co_aligned(*roots)
 
 
 class StackPartition(Concat):
